@@ -1408,3 +1408,106 @@ def maxmin_obligations(timeout_ms=10000):
     for i_, ((kind, text), (st_, line)) in enumerate(sorted(seen.items())):
         add('%s#%d' % (kind, i_), kind, st_, text, line)
     return obs
+
+
+# ------------------------------------------------------ _function.__len__
+# len(f) is the common length L of the parts: every part (constant, linear
+# part, every term) has length 1 or L, and if L > 1 some part has length L
+# (class invariant, precondition).  The two loops over the term lists are
+# executed for an arbitrary term: a term that is passed over must have length
+# 1; at exhaustion every term -- in particular a witness of L > 1 -- was
+# passed over.  Obligation len-value: the value returned is L on every path.
+class LenSeq:
+    abs_object = True
+
+    def __init__(self, name, n, tl, wit):
+        self.name, self.n, self.tl, self.wit = name, n, tl, wit
+
+    def abs_truth(self, ex, st):
+        return self.n > 0
+
+    def abs_loop(self, ex, st, s, fid):
+        k = z3.Int(ex.fresh('k'))
+        b = st.copy()
+        Lg = st.ghost['L']
+        b.pc += [k >= 0, k < self.n, z3.Or(self.tl(k) == 1,
+                                           self.tl(k) == Lg)]
+        ex.assign(b, fid, s.target, Vec('term', self.tl(k),
+                                        lambda i: z3.RealVal(0)), s)
+        outs = []
+        for o in ex.exec_block(s.body, b, fid):
+            if o.kind in ('fall', 'continue'):
+                ex.oblige(o.st, 'len-value', self.tl(k) == 1, s,
+                          '__len__ passes over a term of %s only if it has '
+                          'length 1' % self.name, extra={'prop': 'C11'})
+                ex.orphans = getattr(ex, 'orphans', [])
+                ex.orphans.extend(o.st.obligs)
+            elif o.kind == 'break':
+                raise Unsupported('break in __len__')
+            else:
+                outs.append(o)
+        e = st.copy()
+        e.pc.append(z3.Implies(z3.And(self.wit >= 0, self.wit < self.n),
+                               self.tl(self.wit) == 1))
+        outs.append(Outcome('fall', e))
+        return outs
+
+
+def flen_setup(sc):
+    def setup(ex, st, fid, fn):
+        install()
+        fr = st.frames[fid]
+        Lg = z3.Int('L')
+        lc, ll = z3.Int('len(constant)'), z3.Int('len(linear)')
+        ng, nh = z3.Int('number of convex terms'), z3.Int(
+            'number of concave terms')
+        tg = z3.Function('len of convex term', IS, IS)
+        th = z3.Function('len of concave term', IS, IS)
+        wg, wh = z3.Int('witness (convex)'), z3.Int('witness (concave)')
+        st.pc += [Lg >= 1, ng >= 0, nh >= 0, z3.Or(lc == 1, lc == Lg),
+                  z3.Or(ll == 1, ll == Lg),
+                  z3.Implies(Lg > 1, z3.Or(
+                      lc == Lg, ll == Lg,
+                      z3.And(wg >= 0, wg < ng, tg(wg) == Lg),
+                      z3.And(wh >= 0, wh < nh, th(wh) == Lg)))]
+        arg = FArg(Lg, {
+            '_constant': Vec('const', lc, lambda i: z3.RealVal(0)),
+            '_linear': Vec('lin', ll, lambda i: z3.RealVal(0)),
+            '_cvxterms': LenSeq('_cvxterms', ng, tg, wg),
+            '_ccvterms': LenSeq('_ccvterms', nh, th, wh)})
+        fr['self'] = arg
+        st.ghost.update({'L': Lg, 'frame_check': False})
+        # len(self) inside __len__ would be the function itself: not used
+    return setup
+
+
+def flen_outcomes(ex, outs):
+    P = {'prop': 'C11'}
+    nret = 0
+    for o in outs:
+        st = o.st
+        node = _N()
+        if o.kind == 'raise':
+            ex.oblige(st, 'len-value', z3.BoolVal(False), node,
+                      'len(f) raises no exception (%s)' % (o.val[0],),
+                      extra=P)
+            continue
+        nret += 1
+        v = o.val
+        t = v.t if isinstance(v, I) else (z3.IntVal(v) if isinstance(
+            v, int) and not isinstance(v, bool) else None)
+        ex.oblige(st, 'len-value', t == st.ghost['L'] if t is not None else
+                  z3.BoolVal(False), node,
+                  'len(f) of a function is the common length of its parts '
+                  '(the first part longer than 1 decides; 1 if there is '
+                  'none)', extra=P)
+    if outs:
+        ex.oblige(outs[0].st, 'covered', z3.BoolVal(nret >= 5), _N(),
+                  'the five ways of returning are reached (%d)' % nret,
+                  extra=P)
+    return {'paths': len(outs), 'returns': nret}
+
+
+FUNCS['_function.__len__'] = {
+    'setup': flen_setup, 'scenarios': {'any': {}},
+    'on_outcomes': flen_outcomes, 'config': {'unroll': 8}}
